@@ -88,6 +88,12 @@ CHECKS["C13"] = dict(
     text="Every route of the table (all methods the dispatch code serves) x every caller - anonymous, wrong token, admin token, unmapped system user, and a system user mapped to each of ~140 (quick) / ~180 (thorough) roles: full, none, login only, and for every permission P: all-but-P, only-P, login+P, login+ca-read+P, login+pub-admin+P, unscoped and scoped to a CA - x addressed CA (the scoped one / another one): served exactly when the reference grants login (versioned API), the sub-tree gate and the operation's permission for that CA; refused requests (sent with a valid body) leave the stored state byte-for-byte unchanged; without credentials only the open endpoints are served; testbed self-service is served only in testbed mode; the CA list and the bulk issues list show a caller exactly the CAs it may read.",
     note="Roles with both a blanket and per-CA grants that differ (Role::complex) cannot be expressed in the configuration and are not enumerated. OpenID Connect and config-file users are C20's subject; here role-bearing callers use the Unix-socket provider (peer user set as the socket listener does). Served = any status other than 401/403.")
 
+CHECKS["C20"] = dict(
+    engine="E4", category="model_checking", design="4/C20",
+    technique="exhaustive enumeration of credentials against the daemon's real provider chain (admin token, config-file users with scrypt password hashes and AEAD session tokens, Unix-socket peer users) over an in-memory HTTP connection: login name variants x password variants, token mutations, admin-token variants, peer-user name variants, with a reference that knows the configured users",
+    text="Every (name variant x password variant) login for 7 configured users (among them two whose names coincide after NFKC normalisation, one with a role that forbids login, one with a capitalised name, one with a composed accent) and unknown names: succeeds exactly for a configured name with the matching password and a role permitting login, as that user with that role; the issued token has exactly that role's rights on three probes. Every truncation, single-bit flip, single-character substitution and a menu of re-encodings of two valid session tokens, admin-token variants, a token issued by a second instance (and this instance's token there): refused on every probe over both transports. Peer users: only the mapped names, verbatim. Audit records of accepted commands name the authenticated identity.",
+    note="OpenID Connect needs an external provider and is not exercised. The session key and nonces are random per instance; the verdicts do not depend on their values (a mutation that equals the genuine token is skipped). Passwords are compared after the trimming/NFKC normalisation which the hash generator itself applies.")
+
 CHECKS["C10"] = dict(
     engine="E1", category="model_checking", design="4/C10",
     technique="explicit-state exploration (fork-checkpointed DFS) of publication-delta sequences from several publishers on the real RepositoryManager against a per-publisher reference map",
